@@ -24,6 +24,25 @@ func init() {
 func genTTPlan(st *sim.Stream) (plan []ref.TTSection, transforms []byte) {
 	ns := []int{1, 0, 2, 3, 6}[st.Pick(4, 2, 3, 2, 1)]
 	small := func() string { return genTTString(st, st.Chance(1, 60)) }
+	if st.Chance(1, 60) {
+		// a section with more than a thousand entries (still a few KiB of header)
+		n := []int{1023, 1024, 1025, 1500, 3000}[st.Choose(5)]
+		var s ref.TTSection
+		if st.Chance(1, 2) {
+			s.ID = ref.InfoIntKV
+			for j := 0; j < n; j++ {
+				s.IntKeys = append(s.IntKeys, uint16(j))
+				s.IntVals = append(s.IntVals, string(rune('a'+j%26)))
+			}
+		} else {
+			s.ID = ref.InfoStrKV
+			for j := 0; j < n; j++ {
+				s.StrKeys = append(s.StrKeys, fmt.Sprintf("k%d", j))
+				s.StrVals = append(s.StrVals, "")
+			}
+		}
+		return []ref.TTSection{s}, nil
+	}
 	for i := 0; i < ns; i++ {
 		var s ref.TTSection
 		switch st.Pick(4, 4, 2, 2, 1) {
@@ -272,6 +291,22 @@ func runC10(c *sim.Ctx) {
 				judge("DecodeFromBytes", dp, err, 0, false)
 				if firstDiff(flat, d) >= 0 {
 					c.Fail("INPUT_MODIFIED", "DecodeFromBytes", sim.F{}, "the input was modified")
+				}
+				if err == nil && f.OK {
+					// the caller reuses its buffer: the decoded maps must not change with it
+					snapI, snapS := map[uint16]string{}, map[string]string{}
+					for k2, v2 := range dp.IntInfo {
+						snapI[k2] = string(append([]byte(nil), v2...))
+					}
+					for k2, v2 := range dp.StrInfo {
+						snapS[string(append([]byte(nil), k2...))] = string(append([]byte(nil), v2...))
+					}
+					for x := range flat {
+						flat[x] = 'x'
+					}
+					if !mapsEqualInt(dp.IntInfo, snapI) || !mapsEqualStr(dp.StrInfo, snapS) {
+						c.Fail("FRAME_MAPS", "DecodeFromBytes", sim.F{"after_input_reuse": true}, "the decoded maps changed when the caller overwrote its input buffer (a key or value aliases the input);%s", desc)
+					}
 				}
 			}
 		}
